@@ -111,7 +111,7 @@ fn oracle_of(events: &[(&'static str, String)]) -> Vec<String> {
 
 struct FileSpec { data: Vec<u8>, parts: Vec<usize> }
 
-fn gen_file(rng: &mut Rng, target: usize, pool: &mut Vec<Vec<u8>>, world_files: &[Vec<u8>]) -> FileSpec {
+fn gen_file(rng: &mut Rng, target: usize, pool: &mut Vec<Vec<u8>>, world_files: &[Vec<u8>], force_aligned: bool) -> FileSpec {
     // sizes: empty, sub-chunk, a few chunks, many chunks
     let kind = rng.below(10);
     let want = match kind { 0 => 0, 1 => rng.range(1, (target / 8).max(2) as u64) as usize, 2 | 3 => rng.range(1, 4 * target as u64) as usize, _ => rng.range(4 * target as u64, 60 * target as u64) as usize };
@@ -119,7 +119,7 @@ fn gen_file(rng: &mut Rng, target: usize, pool: &mut Vec<Vec<u8>>, world_files: 
     let comp = rng.below(5);
     // every sixth file is made of chunk-ALIGNED excerpts of earlier files only: all of its chunks are already stored (a fully
     // deduplicated file that is not byte-identical to a stored one), possibly from several files / xorbs back to back
-    if !world_files.is_empty() && rng.chance(1, 6) {
+    if !world_files.is_empty() && (force_aligned || rng.chance(1, 6)) {
         let (min_c, max_c) = (target / *MINIMUM_CHUNK_DIVISOR, target * *MAXIMUM_CHUNK_MULTIPLIER);
         for _ in 0..rng.range(1, 3) {
             let f = rng.pick(world_files); if f.is_empty() { continue; }
@@ -206,11 +206,14 @@ pub fn run_child(ctx: &mut Ctx) {
             let session = tp.external_run_async_task(async move { FileUploadSession::new_with_client(cfg2, tp2, client).await }).unwrap().unwrap();
             // the third session of a world re-uploads earlier files unchanged (C11)
             let reupload = sno >= 1 && rng.chance(1, 2) && !world_files.is_empty();
+            // one later session in five consists ONLY of files made of stored chunks (new file hashes, not one new chunk in the session)
+            let all_known = !reupload && sno >= 1 && rng.chance(1, 4) && !world_files.is_empty();
+            if all_known { ctx.stat("sessions_of_fully_deduplicated_new_files"); }
             let nfiles = rng.range(1, 5) as usize;
             let mut specs: Vec<FileSpec> = Vec::new();
             for i in 0..nfiles {
                 let spec = if reupload && i < world_files.len() { let d = world_files[rng.below(world_files.len() as u64) as usize].clone(); let l = d.len(); FileSpec { data: d, parts: vec![l] } }
-                           else { gen_file(&mut rng, target, &mut pool, &world_files) };
+                           else { gen_file(&mut rng, target, &mut pool, &world_files, all_known) };
                 // one record per file hash and session is kept by the shard (BTreeMap): keep contents distinct within a session
                 if specs.iter().any(|s: &FileSpec| s.data == spec.data) { continue; }
                 specs.push(spec);
